@@ -545,10 +545,11 @@ static void describe_blocked(char* buf, size_t n) {
     }
 }
 
+static uint64_t g_consec = 0;                       // consecutive points of the current fiber
 static Fiber* pick_default(int kind, Fiber** run, int nrun) {
     Fiber* cur = g_cur;
     bool cur_ok = cur && cur->state == F_RUNNABLE;
-    if (cur_ok && kind != K_YIELD && kind != K_PAUSE) return cur;
+    if (cur_ok && kind != K_YIELD && kind != K_PAUSE && !(nrun > 1 && g_consec > 4000)) return cur;   // (nobody keeps the processor for ever)
     // cyclic successor of cur among runnable
     int cid = cur ? cur->id : -1;
     for (int i = 0; i < nrun; ++i) if (run[i]->id > cid) return run[i];
@@ -562,9 +563,17 @@ static Fiber* pick_strategy(int kind, Fiber** run, int nrun) {
     // with a fixed period and single steps a starved fiber that polls a lock which another fiber takes and releases in a
     // tight loop without any pause (tbbmalloc's findBlock retry) met the lock in the same phase every time: a resonance of
     // the scheduler, not of the code under test.
-    if (g_force_left > 0 && g_force_fiber >= 0 && g_force_fiber < g_nfib && g_fibers[g_force_fiber]->state == F_RUNNABLE &&
-        kind != K_YIELD && kind != K_PAUSE) { --g_force_left; return g_fibers[g_force_fiber]; }
+    if (g_force_left > 0 && g_force_fiber >= 0 && g_force_fiber < g_nfib && g_fibers[g_force_fiber]->state == F_RUNNABLE) {
+        --g_force_left; return g_fibers[g_force_fiber];      // also across its pause / yield points (a back-off of 16 pauses is 16 points)
+    }
     g_force_left = 0;
+    // no fiber keeps the processor for thousands of points while others are runnable: on real hardware they run in
+    // parallel, and a tight retry loop without any pause (tbbmalloc's findBlock) would otherwise shut out the fiber it waits for
+    if (cur_ok && nrun > 1 && g_consec > 1500 + g_rng_sched.below(1500)) {
+        Fiber* o; do o = run[g_rng_sched.below(nrun)]; while (o == cur);
+        g_force_fiber = o->id; g_force_left = 10 + (int)g_rng_sched.below(60);
+        return o;
+    }
     {
         uint64_t bound = 2000ull * (uint64_t)(nrun + 1) + g_rng_sched.below(1009);
         Fiber* starving = nullptr;
@@ -653,6 +662,7 @@ static void schedule(int kind) {
             next = nrun == 1 ? run[0] : pick_strategy(kind, run, nrun);
         }
         if (next != dflt) log_dec(g_step, D_SWITCH, (uint32_t)next->id);
+        if (next == cur) ++g_consec; else g_consec = 0;
         if (next != cur) {
             if (cur && cur->state == F_RUNNABLE && kind != K_YIELD && kind != K_PAUSE) { ++g_preempts; hash_mix(g_sig, (g_step << 8) ^ next->id); }
             else hash_mix(g_sig, 0x5157 + next->id);
